@@ -22,7 +22,7 @@ def nontrivial(case, sched, starts, info):
 def variants():
     from hypothesis import strategies as st
     # a worker that answers every request twice (the second reply is an orphan and must still be acknowledged once)
-    return st.sampled_from([{}, {}, {}, {"dup_replies": 0.5}])
+    return st.sampled_from([{}, {}, {}, {"dup_replies": 0.5}, {"past_expiry": 40}])
 
 
 mon.SPECS[PID] = mon.Spec(PID, ("ack", "exceptions"), RULE, [
